@@ -75,6 +75,10 @@ claim("C15","exploration","runtime monitor: non-interference oracle (texts must 
  "Programs with go.redact/go.nolog on fields of every type and depth; for value pairs that differ only in hidden fields String(), Error() and real zapcore encoder output must be identical; markers of hidden fields must not occur, markers of visible string fields must occur (under their label in zap).",
  "zap output observed through zapcore.MapObjectEncoder; visibility asserted for string-typed fields only", "DESIGN.md §5 C15")
 
+claim("C19","exploration","Go compiler as type-identity oracle over assertion sources emitted by a real plugin (thriftrw's own plugin library, real handshake); model-based consistency check of the dumped request; reflection-driven helper round-trip monitor in the driver",
+ "Service-heavy valid programs are generated by the real CLI with a real plugin attached (recursive and --no-recurse runs). The plugin formats every argument, exception and return type description with formatType into pointer-assignability assertions against the generated Args/Result structs and Helper signatures; the Go compiler decides identity. Every dumped request is checked for self-consistency and against the model of the program. In the driver the generated Helper.Args/WrapResponse/UnwrapResponse/IsException are called by reflection with generated values, every declared exception, plain errors and undeclared exception types.",
+ "SAFE naming vocabulary; type shapes are those the program generator draws (evidence lists the distinct description shapes seen)", "DESIGN.md §5 C19")
+
 NOT_IMPL = "check not implemented yet in this round (statement about the machinery, not the technique)"
 
 def main():
